@@ -32,6 +32,7 @@ def site(fi, node=None):
 def check(m, run):
     from .. import skel_drivers as _sdn
     _sdn.nm2(m, run)      # a normalising shape and its un-normalised twin describe the same geometry only if normalisation is the affine map onto [0, 1] (shared with C03)
+    _sdn.cp2(m, run)      # parameters are accepted exactly when they lie in the (normalised) domain: no tolerance lets an evaluation out of it
     kd1(m, run)
     pu4(m, run)
     from . import c16, c02
